@@ -1317,6 +1317,7 @@ func (a *Allocator) CreatePool(createInfo PoolCreateInfo) (*Pool, common.VkResul
 	defer a.poolsMutex.Unlock()
 
 	err = pool.setID(a.nextPoolId)
+	a.nextPoolId++
 	if err != nil {
 		destroyErr := pool.destroyAfterLock()
 		if destroyErr != nil {
